@@ -9,6 +9,9 @@ EXTENDS LieselBuild, BuildStructure, TraceBatch
 UIn1 == <<{}, {1}, {2, 4}, {}>>
 Names1 == <<"a", "b", "", "s">>
 UInCycT == <<{3}, {1}, {2}, {}>>
+\* universe with a seed the user wired in: s (4, needs a seed) reads it from the value node us (5)
+UIn5 == <<{}, {1}, {2, 4}, {5}, {}>>
+Names5 == <<"a", "b", "", "s", "us">>
 
 TInit == BatchInit /\ BInit
 
@@ -23,7 +26,7 @@ ProjOK(m) ==
          \A o \in models'[m].objs : SeqToSet(Ev.proj.inputs[ToString(o)]) = models'[m].inputs[o])
   \* the group g = {first: object 1, root: object 3} is reported iff one of its members is in the model
   /\ Chk("groups_reported_with_all_their_members",
-         Hdr.universe # "abcs" \/
+         Hdr.universe \notin {"abcs", "abcsu"} \/
          (IF models'[m].objs \cap {1, 3} = {} THEN Len(Ev.proj.groups) = 0
           ELSE /\ Len(Ev.proj.groups) = 1 /\ Ev.proj.groups[1][1] = "g"
                /\ Ev.proj.groups[1][2] = <<"first", "root">>
